@@ -3,6 +3,7 @@ package c10
 import (
 	"fmt"
 	"math"
+	"regexp"
 	"runtime/debug"
 	"strings"
 
@@ -53,6 +54,12 @@ func partnerOpen() *canvas.Path {
 
 type pureCall struct {
 	name string
+	// group names the method family in violation classes (one class per root cause, not per
+	// argument variant); role says what the state path p is in this call.
+	group, role string
+	// extra: not in the property's list of queries/derivations (unfinished or unlisted API);
+	// problems are tallied as outcomes, not reported as violations.
+	extra bool
 	// run calls the method on p, handing every argument object through a (which snapshots it).
 	run func(p *canvas.Path, a *args)
 }
@@ -61,6 +68,7 @@ type pureCall struct {
 // handed over (argument expressions are evaluated before the call, so that is the pre-call value).
 type args struct {
 	paths     []*canvas.Path
+	pathRole  []string
 	pathSnaps [][]float64
 	floats    [][]float64
 	floatSnap [][]float64
@@ -69,8 +77,9 @@ type args struct {
 	psData    [][][]float64
 }
 
-func (a *args) path(p *canvas.Path) *canvas.Path {
+func (a *args) path(p *canvas.Path, role string) *canvas.Path {
 	a.paths = append(a.paths, p)
+	a.pathRole = append(a.pathRole, role)
 	a.pathSnaps = append(a.pathSnaps, snap(p.Data()))
 	return p
 }
@@ -79,7 +88,7 @@ func (a *args) fl(f ...float64) []float64 {
 	a.floatSnap = append(a.floatSnap, snap(f))
 	return f
 }
-func (a *args) ps(ps canvas.Paths) canvas.Paths {
+func (a *args) ps(ps []*canvas.Path) canvas.Paths {
 	a.pslice = append(a.pslice, ps)
 	a.psElems = append(a.psElems, append([]*canvas.Path(nil), ps...))
 	var dd [][]float64
@@ -167,53 +176,68 @@ func boolOpPaths(k int, p, q canvas.Paths) *canvas.Path {
 
 // pureCalls is the list of queries and derivations (everything but the methods documented as
 // in-place: builder calls, Reset, Transform, Translate, Scale, Gridsnap, CopyTo's target).
-func pureCalls() []pureCall {
-	cs := []pureCall{
-		{"Bounds", func(p *canvas.Path, a *args) { p.Bounds() }},
-		{"FastBounds", func(p *canvas.Path, a *args) { p.FastBounds() }},
-		{"Length", func(p *canvas.Path, a *args) { p.Length() }},
-		{"Flatten", func(p *canvas.Path, a *args) { p.Flatten(0.1) }},
-		{"ReplaceArcs", func(p *canvas.Path, a *args) { p.ReplaceArcs() }},
-		{"XMonotone", func(p *canvas.Path, a *args) { p.XMonotone() }},
-		{"Stroke(round)", func(p *canvas.Path, a *args) { p.Stroke(0.5, canvas.RoundCap, canvas.RoundJoin, 0.1) }},
-		{"Stroke(miter)", func(p *canvas.Path, a *args) { p.Stroke(0.25, canvas.SquareCap, canvas.MiterJoin, 0.1) }},
-		{"Offset(+)", func(p *canvas.Path, a *args) { p.Offset(0.25, 0.1) }},
-		{"Offset(-)", func(p *canvas.Path, a *args) { p.Offset(-0.25, 0.1) }},
-		{"Dash(zero-in-pattern)", func(p *canvas.Path, a *args) { p.Dash(0, a.fl(1, 0, 2, 3)...) }},
-		{"Dash(leading-zero)", func(p *canvas.Path, a *args) { p.Dash(0.25, a.fl(0, 1, 0.5, 0.25)...) }},
-		{"Dash(plain)", func(p *canvas.Path, a *args) { p.Dash(0.5, a.fl(0.5, 0.25)...) }},
-		{"Dash(odd)", func(p *canvas.Path, a *args) { p.Dash(-0.25, a.fl(0.75)...) }},
-		{"Reverse", func(p *canvas.Path, a *args) { p.Reverse() }},
-		{"Split", func(p *canvas.Path, a *args) { p.Split() }},
-		{"SplitAt", func(p *canvas.Path, a *args) { p.SplitAt(a.fl(0.5, 1.5)...) }},
-		{"Settle(NonZero)", func(p *canvas.Path, a *args) { p.Settle(canvas.NonZero) }},
-		{"Settle(EvenOdd)", func(p *canvas.Path, a *args) { p.Settle(canvas.EvenOdd) }},
-		{"ToSVG", func(p *canvas.Path, a *args) { _ = p.ToSVG() }},
-		{"ToPDF", func(p *canvas.Path, a *args) { _ = p.ToPDF() }},
-		{"ToPS", func(p *canvas.Path, a *args) { _ = p.ToPS() }},
-		{"String", func(p *canvas.Path, a *args) { _ = p.String() }},
-		{"Scanners", func(p *canvas.Path, a *args) { drainScanner(p) }},
-		{"Windings", func(p *canvas.Path, a *args) {
+// core marks the subset that is also run on the depth-3 states in the quick tier.
+func pureCalls() (all []pureCall, core []pureCall) {
+	Q := func(name string, run func(p *canvas.Path, a *args)) pureCall {
+		g := name
+		if k := strings.IndexByte(g, '('); k > 0 {
+			g = g[:k]
+		}
+		return pureCall{name: name, group: g, role: "receiver", run: run}
+	}
+	X := func(name string, run func(p *canvas.Path, a *args)) pureCall {
+		c := Q(name, run)
+		c.extra = true
+		return c
+	}
+	coreSet := map[string]bool{}
+	C := func(c pureCall) pureCall { coreSet[c.name] = true; return c }
+	all = []pureCall{
+		C(Q("Bounds", func(p *canvas.Path, a *args) { p.Bounds() })),
+		C(Q("FastBounds", func(p *canvas.Path, a *args) { p.FastBounds() })),
+		C(Q("Length", func(p *canvas.Path, a *args) { p.Length() })),
+		C(Q("Flatten", func(p *canvas.Path, a *args) { p.Flatten(0.1) })),
+		C(Q("ReplaceArcs", func(p *canvas.Path, a *args) { p.ReplaceArcs() })),
+		C(Q("XMonotone", func(p *canvas.Path, a *args) { p.XMonotone() })),
+		C(Q("Stroke(round)", func(p *canvas.Path, a *args) { p.Stroke(0.5, canvas.RoundCap, canvas.RoundJoin, 0.1) })),
+		Q("Stroke(miter)", func(p *canvas.Path, a *args) { p.Stroke(0.25, canvas.SquareCap, canvas.MiterJoin, 0.1) }),
+		C(Q("Offset(+)", func(p *canvas.Path, a *args) { p.Offset(0.25, 0.1) })),
+		Q("Offset(-)", func(p *canvas.Path, a *args) { p.Offset(-0.25, 0.1) }),
+		C(Q("Dash(zero-in-pattern)", func(p *canvas.Path, a *args) { p.Dash(0, a.fl(1, 0, 2, 3)...) })),
+		Q("Dash(leading-zero)", func(p *canvas.Path, a *args) { p.Dash(0.25, a.fl(0, 1, 0.5, 0.25)...) }),
+		C(Q("Dash(plain)", func(p *canvas.Path, a *args) { p.Dash(0.5, a.fl(0.5, 0.25)...) })),
+		Q("Dash(odd)", func(p *canvas.Path, a *args) { p.Dash(-0.25, a.fl(0.75)...) }),
+		C(Q("Reverse", func(p *canvas.Path, a *args) { p.Reverse() })),
+		C(Q("Split", func(p *canvas.Path, a *args) { p.Split() })),
+		C(Q("SplitAt", func(p *canvas.Path, a *args) { p.SplitAt(a.fl(0.5, 1.5)...) })),
+		C(Q("Settle(NonZero)", func(p *canvas.Path, a *args) { p.Settle(canvas.NonZero) })),
+		Q("Settle(EvenOdd)", func(p *canvas.Path, a *args) { p.Settle(canvas.EvenOdd) }),
+		C(Q("ToSVG", func(p *canvas.Path, a *args) { _ = p.ToSVG() })),
+		C(Q("ToPDF", func(p *canvas.Path, a *args) { _ = p.ToPDF() })),
+		C(Q("ToPS", func(p *canvas.Path, a *args) { _ = p.ToPS() })),
+		C(Q("String", func(p *canvas.Path, a *args) { _ = p.String() })),
+		C(Q("Scanners", func(p *canvas.Path, a *args) { drainScanner(p) })),
+		C(Q("Windings", func(p *canvas.Path, a *args) {
 			for _, q := range []Pt{{X: 0.5, Y: 0.5}, {X: 1, Y: 1}, {X: -1, Y: 0}, {X: 1.25, Y: 0.75}} {
 				p.Windings(q.X, q.Y)
 				p.Crossings(q.X, q.Y)
 				p.Contains(q.X, q.Y, canvas.NonZero)
 				p.Contains(q.X, q.Y, canvas.EvenOdd)
 			}
-		}},
-		{"RayIntersections", func(p *canvas.Path, a *args) { p.RayIntersections(-1, 0.5); p.RayIntersections(0, 1) }},
-		{"Copy", func(p *canvas.Path, a *args) { p.Copy() }},
-		{"CCW", func(p *canvas.Path, a *args) { p.CCW() }},
-		{"Filling", func(p *canvas.Path, a *args) { p.Filling(canvas.NonZero); p.Filling(canvas.EvenOdd) }},
-		{"Coords", func(p *canvas.Path, a *args) { p.Coords(); p.CoordDirections() }},
-		{"Segments", func(p *canvas.Path, a *args) {
+		})),
+		Q("RayIntersections", func(p *canvas.Path, a *args) { p.RayIntersections(-1, 0.5); p.RayIntersections(0, 1) }),
+		C(Q("Copy", func(p *canvas.Path, a *args) { p.Copy() })),
+		Q("CCW", func(p *canvas.Path, a *args) { p.CCW() }),
+		Q("Filling", func(p *canvas.Path, a *args) { p.Filling(canvas.NonZero); p.Filling(canvas.EvenOdd) }),
+		Q("Coords", func(p *canvas.Path, a *args) { p.Coords(); p.CoordDirections() }),
+		Q("Segments", func(p *canvas.Path, a *args) {
 			n := len(p.Segments())
 			for i := 0; i < n; i++ {
 				p.Direction(i, 0.5)
 				p.Curvature(i, 0.5)
 			}
-		}},
-		{"Predicates", func(p *canvas.Path, a *args) {
+		}),
+		Q("Predicates", func(p *canvas.Path, a *args) {
 			p.Empty()
 			p.Closed()
 			p.PointClosed()
@@ -223,83 +247,139 @@ func pureCalls() []pureCall {
 			p.Len()
 			p.Pos()
 			p.StartPos()
-		}},
-		{"Equals/Same", func(p *canvas.Path, a *args) { q := a.path(partnerClosed()); p.Equals(q); p.Same(q); q.Same(p) }},
-		{"Markers", func(p *canvas.Path, a *args) {
-			m := a.path(partnerOpen())
+		}),
+		Q("Equals/Same", func(p *canvas.Path, a *args) {
+			q := a.path(partnerClosed(), "argument")
+			p.Equals(q)
+			p.Same(q)
+			q.Same(p)
+		}),
+		X("Markers", func(p *canvas.Path, a *args) {
+			m := a.path(partnerOpen(), "argument")
 			p.Markers(m, m, m, true)
-		}},
-		{"Clip", func(p *canvas.Path, a *args) { p.Clip(0.5, 0.5, 1.5, 1.5) }},
-		{"FastClip", func(p *canvas.Path, a *args) { p.FastClip(0.5, 0.5, 1.5, 1.5) }},
-		{"SimplifyVisvalingamWhyatt", func(p *canvas.Path, a *args) { p.SimplifyVisvalingamWhyatt(0.1) }},
-		{"GobEncode", func(p *canvas.Path, a *args) { p.GobEncode() }},
+		}),
+		X("Clip", func(p *canvas.Path, a *args) { p.Clip(0.5, 0.5, 1.5, 1.5) }),
+		X("FastClip", func(p *canvas.Path, a *args) { p.FastClip(0.5, 0.5, 1.5, 1.5) }),
+		X("SimplifyVisvalingamWhyatt", func(p *canvas.Path, a *args) { p.SimplifyVisvalingamWhyatt(0.1) }),
+		X("GobEncode", func(p *canvas.Path, a *args) { p.GobEncode() }),
+	}
+	B := func(name, role string, run func(p *canvas.Path, a *args)) pureCall {
+		return pureCall{name: name, group: "boolean-op", role: role, run: run}
 	}
 	for k := range boolNames {
 		k := k
-		cs = append(cs,
-			pureCall{boolNames[k] + "(p,closed)", func(p *canvas.Path, a *args) { boolOp(k, p, a.path(partnerClosed())) }},
-			pureCall{boolNames[k] + "(p,open)", func(p *canvas.Path, a *args) { boolOp(k, p, a.path(partnerOpen())) }},
-			pureCall{boolNames[k] + "(closed,p)", func(p *canvas.Path, a *args) { boolOp(k, a.path(partnerClosed()), p) }},
-			pureCall{boolNames[k] + "(p,p)", func(p *canvas.Path, a *args) { boolOp(k, p, p) }},
-			pureCall{"Paths." + boolNames[k] + "({p},{closed})", func(p *canvas.Path, a *args) {
-				boolOpPaths(k, a.ps(canvas.Paths{p}), a.ps(canvas.Paths{a.path(partnerClosed())}))
-			}},
-			pureCall{"Paths." + boolNames[k] + "({closed},{p})", func(p *canvas.Path, a *args) {
-				boolOpPaths(k, a.ps(canvas.Paths{a.path(partnerClosed())}), a.ps(canvas.Paths{p}))
-			}},
+		n := boolNames[k]
+		all = append(all,
+			B(n+"(p,closed)", "subject", func(p *canvas.Path, a *args) { boolOp(k, p, a.path(partnerClosed(), "clipping")) }),
+			B(n+"(p,open)", "subject", func(p *canvas.Path, a *args) { boolOp(k, p, a.path(partnerOpen(), "clipping")) }),
+			B(n+"(closed,p)", "clipping", func(p *canvas.Path, a *args) { boolOp(k, a.path(partnerClosed(), "subject"), p) }),
+			B(n+"(p,p)", "subject-and-clipping", func(p *canvas.Path, a *args) { boolOp(k, p, p) }),
+			B("Paths."+n+"(p.Split(),{closed})", "subject", func(p *canvas.Path, a *args) {
+				boolOpPaths(k, a.ps(p.Split()), a.ps([]*canvas.Path{a.path(partnerClosed(), "clipping")}))
+			}),
+			B("Paths."+n+"({closed},p.Split())", "clipping", func(p *canvas.Path, a *args) {
+				boolOpPaths(k, a.ps([]*canvas.Path{a.path(partnerClosed(), "subject")}), a.ps(p.Split()))
+			}),
 		)
+		if k == 0 || k == 1 {
+			coreSet[n+"(p,closed)"] = true
+			coreSet[n+"(closed,p)"] = true
+		}
 	}
-	cs = append(cs, pureCall{"Paths.Settle({p})", func(p *canvas.Path, a *args) { a.ps(canvas.Paths{p}).Settle(canvas.NonZero) }})
-	return cs
+	coreSet["Paths.And(p.Split(),{closed})"] = true
+	all = append(all,
+		B("Paths.Settle(p.Split())", "subject", func(p *canvas.Path, a *args) { a.ps(p.Split()).Settle(canvas.NonZero) }),
+		// a Paths element that is not split yet (the implementation splits such elements itself)
+		B("Paths.Settle({p})", "subject", func(p *canvas.Path, a *args) { a.ps([]*canvas.Path{p}).Settle(canvas.NonZero) }),
+	)
+	for _, c := range all {
+		if coreSet[c.name] {
+			core = append(core, c)
+		}
+	}
+	return all, core
 }
 
-var pureList = pureCalls()
+var pureAll, pureCore = pureCalls()
 
 // NumPureCalls is the number of method invocations per state.
-func NumPureCalls() int { return len(pureList) }
+func NumPureCalls(coreOnly bool) int {
+	if coreOnly {
+		return len(pureCore)
+	}
+	return len(pureAll)
+}
+
+var digitsRe = regexp.MustCompile(`[0-9]+`)
 
 // CheckTotalityPurity calls every listed method on a path freshly built by mk (one fresh path
 // per method, so natural slice capacities and no cross talk), under recover, and bit-compares
-// receiver and arguments before and after.
-func CheckTotalityPurity(mk func() *canvas.Path) []Finding {
-	var fs []Finding
-	for _, c := range pureList {
+// receiver and arguments before and after. Finding classes name the root cause as far as it
+// can be told from the outside: the panic site and message, or what was modified by which
+// method family.
+func CheckTotalityPurity(mk func() *canvas.Path, coreOnly bool) (fs []Finding, extras []Finding) {
+	list := pureAll
+	if coreOnly {
+		list = pureCore
+	}
+	for _, c := range list {
 		p := mk()
 		before := snap(p.Data())
 		a := &args{}
+		add := func(f Finding) {
+			f.Detail = c.name + ": " + f.Detail
+			if c.extra {
+				extras = append(extras, f)
+			} else {
+				fs = append(fs, f)
+			}
+		}
 		func() {
 			defer func() {
 				if e := recover(); e != nil {
-					fs = append(fs, Finding{"panic:" + c.name, fmt.Sprintf("%v @ %s", e, panicSite(string(debug.Stack())))})
+					site := panicSite(string(debug.Stack()))
+					msg := digitsRe.ReplaceAllString(fmt.Sprint(e), "#")
+					if len(msg) > 80 {
+						msg = msg[:80]
+					}
+					fn := site
+					if k := strings.IndexByte(fn, ' '); k > 0 {
+						fn = fn[:k]
+					}
+					add(Finding{"panic:" + fn + ": " + msg, fmt.Sprintf("%v @ %s", e, site)})
 				}
 			}()
 			c.run(p, a)
 		}()
-		if !bitsEqual(before, p.Data()) {
-			fs = append(fs, Finding{"receiver-mutated:" + c.name, fmt.Sprintf("path was %s, is now %s", oracle.Fmt(before), oracle.Fmt(p.Data()))})
+		recvMutated := !bitsEqual(before, p.Data())
+		if recvMutated {
+			add(Finding{c.role + "-path-mutated:" + c.group, fmt.Sprintf("path was %s, is now %s", oracle.Fmt(before), oracle.Fmt(p.Data()))})
 		}
 		for i, q := range a.paths {
 			if q != p && !bitsEqual(a.pathSnaps[i], q.Data()) {
-				fs = append(fs, Finding{"argument-path-mutated:" + c.name, fmt.Sprintf("argument path was %s, is now %s", oracle.Fmt(a.pathSnaps[i]), oracle.Fmt(q.Data()))})
+				add(Finding{a.pathRole[i] + "-path-mutated:" + c.group, fmt.Sprintf("%s path was %s, is now %s", a.pathRole[i], oracle.Fmt(a.pathSnaps[i]), oracle.Fmt(q.Data()))})
 			}
 		}
 		for i, f := range a.floats {
 			if !bitsEqual(a.floatSnap[i], f) {
-				fs = append(fs, Finding{"argument-slice-mutated:" + c.name, fmt.Sprintf("argument slice was %v, is now %v", a.floatSnap[i], f)})
+				add(Finding{"argument-slice-mutated:" + c.group, fmt.Sprintf("argument slice was %v, is now %v", a.floatSnap[i], f)})
 			}
 		}
 		for i, ps := range a.pslice {
 			for j := range ps {
 				if ps[j] != a.psElems[i][j] {
-					fs = append(fs, Finding{"argument-Paths-mutated:" + c.name, fmt.Sprintf("element %d of Paths argument %d was replaced: pointed to %s, now points to %s", j, i, oracle.Fmt(a.psData[i][j]), oracle.Fmt(ps[j].Data()))})
-				} else if ps[j] != p && !bitsEqual(a.psData[i][j], ps[j].Data()) {
-					fs = append(fs, Finding{"argument-path-mutated:" + c.name, fmt.Sprintf("path in Paths argument %d was %s, is now %s", i, oracle.Fmt(a.psData[i][j]), oracle.Fmt(ps[j].Data()))})
+					add(Finding{"Paths-argument-elements-replaced:" + c.group, fmt.Sprintf("element %d of Paths argument %d was replaced: pointed to %s, now points to %s", j, i, oracle.Fmt(a.psData[i][j]), oracle.Fmt(ps[j].Data()))})
+				} else if !recvMutated && !bitsEqual(a.psData[i][j], ps[j].Data()) {
+					add(Finding{"Paths-argument-path-mutated:" + c.group, fmt.Sprintf("path %d in Paths argument %d was %s, is now %s", j, i, oracle.Fmt(a.psData[i][j]), oracle.Fmt(ps[j].Data()))})
 				}
 			}
 		}
 	}
-	return fs
+	return fs, extras
 }
+
+// PanicSite extracts the first canvas frame below the panic from a stack dump.
+func PanicSite(stack string) string { return panicSite(stack) }
 
 func panicSite(stack string) string {
 	// first canvas frame after the panic
